@@ -389,6 +389,12 @@ def run(ctx):
                    "start-of-stream / after-Full-flush refill), dict.size clamped after every refill", floor=8, config=cfg)
     _c01.rule_mirror(ctx, cfg, r10)
     _dp.rule_window_accounting(ctx, cfg, r10)
+    from rules import bitacc as _bitacc
+    r11 = ctx.rule("R02.11", "bit accumulator of compress_lz_codes: the bits appended between two flushes, plus what a flush leaves behind, fit its width", floor=6, config=cfg)
+    _bitacc.rule_accumulator(ctx, cfg, r11)
+    from rules import lzbuf as _lzbuf
+    rcap = ctx.rule("R02.12", "LZ token buffer capacity: the bytes one loop iteration may append never exceed the margin of its fullness test", floor=4, config=cfg)
+    _lzbuf.rule_token_buffer_capacity(ctx, cfg, rcap)
     r9 = ctx.rule("R02.9", "Done (end of stream) is reported only once finished ∧ nothing pending", floor=3, config=cfg)
     dp.rule_done_origin(ctx, cfg, r9)
     if ctx.thorough():
